@@ -30,17 +30,21 @@ unsigned long in_o, in_v, in_w, in_op, in_sel;
 #define ADD(T, o, v) ((T) ((unsigned long) (o) + (unsigned long) (v)))
 #define SUB(T, o, v) ((T) ((unsigned long) (o) - (unsigned long) (v)))
 
-#define CHECK_GUARDS(s, what) VERIF_ASSERT((s).g0 == GUARD && (s).g1 == (GUARD ^ 0xffUL), what ": neighbouring bytes untouched")
+/* the guard AFTER the location is a byte array, so that it starts at the very next byte whatever the width of T (an
+ * unsigned long there would leave up to 7 padding bytes in which a too-wide access goes unnoticed) */
+#define GUARD_AFTER_OK(s) ((s).g1[0] == 0x0f && (s).g1[1] == 0xf0 && (s).g1[2] == 0x69 && (s).g1[3] == 0x96 && (s).g1[4] == 0x3c && (s).g1[5] == 0xc3 && (s).g1[6] == 0xa5 && (s).g1[7] == 0x5a)
+#define GUARD_AFTER_SET(s) do { (s).g1[0] = 0x0f; (s).g1[1] = 0xf0; (s).g1[2] = 0x69; (s).g1[3] = 0x96; (s).g1[4] = 0x3c; (s).g1[5] = 0xc3; (s).g1[6] = 0xa5; (s).g1[7] = 0x5a; } while (0)
+#define CHECK_GUARDS(s, what) VERIF_ASSERT((s).g0 == GUARD && GUARD_AFTER_OK(s), what ": neighbouring bytes untouched (the 8 bytes before and the 8 bytes immediately after the location)")
 
 /* one location type T, one operand type V: all read-modify-write operations */
 #define DEF_RMW(NAME, T, V)										\
 static void rmw_##NAME(void)										\
 {													\
-	struct { unsigned long g0; T x; unsigned long g1; } s;						\
+	struct { unsigned long g0; T x; unsigned char g1[8]; } s;					\
 	T o = (T) in_o, r;										\
 	V v = (V) in_v;											\
 	T w = (T) in_w;											\
-	s.g0 = GUARD; s.g1 = GUARD ^ 0xffUL;								\
+	s.g0 = GUARD; GUARD_AFTER_SET(s);								\
 	switch (in_op) {										\
 	case 0:												\
 		s.x = o; r = uatomic_add_return(&s.x, v);						\
@@ -139,11 +143,11 @@ DEF_T(i64, long)
 /* pointers */
 void h_ptr(void)
 {
-	struct { unsigned long g0; void *x; unsigned long g1; } s;
+	struct { unsigned long g0; void *x; unsigned char g1[8]; } s;
 	void *o, *v, *w, *r;
 	VIN(unsigned long, in_o); VIN(unsigned long, in_v); VIN(unsigned long, in_w); VIN(unsigned long, in_op);
 	o = (void *) in_o; v = (void *) in_v; w = (void *) in_w;
-	s.g0 = GUARD; s.g1 = GUARD ^ 0xffUL;
+	s.g0 = GUARD; GUARD_AFTER_SET(s);
 	s.x = o;
 	if (in_op == 0) {
 		r = uatomic_xchg(&s.x, v);
